@@ -427,6 +427,26 @@ type c11HolderA struct {
 type c11HolderB struct{ C11Mid }
 type c11HolderC struct{ c11low }
 
+// the same mixin type embedded twice in one component: through two different parents (diamond) and
+// at two depths
+type C11Audit struct {
+	V  string     `value:"lit"`
+	W  scen.Iface `wire:"prov"`
+	C  string     `mytag:"v,arg=a b"`
+	U2 string
+}
+type C11Left struct{ C11Audit }
+type C11Right struct{ C11Audit }
+type c11HolderDiamond struct {
+	C11Left
+	C11Right
+}
+type C11InnerAudit struct{ C11Audit }
+type c11HolderTwoDepths struct {
+	C11Audit
+	C11InnerAudit
+}
+
 type c11DecoyInner struct {
 	X string `value:"lit"`
 }
@@ -445,7 +465,7 @@ func c11Static(c *core.Ctx) {
 		Shape string `json:"shape"`
 	}
 	gen := func(yield func(sc) bool) {
-		for _, s := range []string{"unexported-embed", "exported>unexported", "unexported>exported>unexported", "decoys"} {
+		for _, s := range []string{"unexported-embed", "exported>unexported", "unexported>exported>unexported", "decoys", "diamond", "two-depths"} {
 			if !yield(sc{s}) {
 				return
 			}
@@ -479,6 +499,38 @@ func c11Static(c *core.Ctx) {
 		want := view(&fin, fprov)
 		if !fo.OK() {
 			c.Report(key, "flat-failed", "the flat reference shape did not start: "+scen.FirstLine(fo.Err)+fo.Panic, s)
+			return
+		}
+		if s.Shape == "diamond" || s.Shape == "two-depths" {
+			var a1, a2 *C11Audit
+			var hh any
+			if s.Shape == "diamond" {
+				x := &c11HolderDiamond{}
+				hh, a1, a2 = x, &x.C11Left.C11Audit, &x.C11Right.C11Audit
+			} else {
+				x := &c11HolderTwoDepths{}
+				hh, a1, a2 = x, &x.C11Audit, &x.C11InnerAudit.C11Audit
+			}
+			a1.U2, a2.U2 = "SENTINEL", "SENTINEL"
+			rec, o, prov := run(hh)
+			show := func(a *C11Audit) string {
+				return fmt.Sprintf("V=%q W=%v U2=%q", a.V, a.W == scen.Iface(prov), a.U2)
+			}
+			want := `V="lit" W=true U2="SENTINEL"`
+			switch {
+			case !o.OK():
+				c.Outcome(s.Shape + "/failed")
+				c.Report(key, "embedding-changes-outcome", fmt.Sprintf("shape %s: start-up failed: %s%s", s.Shape, scen.FirstLine(o.Err), o.Panic), s)
+			case show(a1) != want || show(a2) != want:
+				c.Outcome(s.Shape + "/differs")
+				c.Report(key, "embedding-changes-value", fmt.Sprintf("shape %s (one mixin type embedded twice): first occurrence [%s], second occurrence [%s], want both [%s]", s.Shape, show(a1), show(a2), want), s)
+			case len(rec.seen) != 2:
+				c.Outcome(s.Shape + "/custom-tag")
+				c.Report(key, "custom-tag", fmt.Sprintf("shape %s: the custom tag processor received %v, want the tagged field of both occurrences", s.Shape, rec.seen), s)
+			default:
+				c.Outcome(s.Shape + "/both-occurrences-processed")
+			}
+			c.Sample(map[string]any{"shape": s.Shape, "first": show(a1), "second": show(a2)})
 			return
 		}
 		var in *c11inner
